@@ -20,7 +20,12 @@ EXTENDS Naturals, Sequences, FiniteSets, TLC
 
 (******************************* acceptor **********************************)
 \* st = [f: function call -> outcome hash (as a set of pairs), fly: set of <<g, i>>, ok: BOOLEAN]
-StInit == [f |-> {}, fly |-> {}, ok |-> TRUE, why |-> "ok"]
+\* bw: streamed bodies (ht.CreateBodyWriter) whose writer callback has returned.  A streamed
+\* request body is written by a goroutine of its own that walks the caller's request value;
+\* closing the body (what ends the exchange, also an early one) joins that goroutine:
+\* BwClosed(i) is admissible only after BwExit(i).  Otherwise the writer still reads the
+\* request value after the call has returned it to the caller.
+StInit == [f |-> {}, fly |-> {}, ok |-> TRUE, why |-> "ok", bw |-> {}]
 F(st, i) == IF \E p \in st.f : p[1] = i THEN (CHOOSE p \in st.f : p[1] = i)[2] ELSE "undefined"
 Reject(st, why) == IF st.ok THEN [st EXCEPT !.ok = FALSE, !.why = why] ELSE st
 OnEvent(st, e) ==
@@ -32,5 +37,8 @@ OnEvent(st, e) ==
          ELSE [st EXCEPT !.fly = @ \ {<<e.g, e.i>>}]
     [] e.e = "Barrier" -> IF st.fly # {} THEN Reject(st, "call-never-returned") ELSE st
     [] e.e = "Race" -> Reject(st, "data-race-reported")
+    [] e.e = "BwStart" -> st
+    [] e.e = "BwExit" -> [st EXCEPT !.bw = @ \cup {e.i}]
+    [] e.e = "BwClosed" -> IF e.i \in st.bw THEN st ELSE Reject(st, "streamed-body-closed-while-its-writer-still-runs")
     [] OTHER -> Reject(st, "unknown-event")
 =============================================================================
